@@ -1,11 +1,13 @@
 import BpProofs.SrcTieMetaInit
+import BpProofs.SrcTieMetaField
 import BpProofs.SrcTieMsg
 import BpProofs.Props.C06
 /-
   C06, tied to the SOURCE, the foundation under every other tie: the class metadata tables, construction and the
   field defaults.  `ProtoClassMetadata.__init__` (+ `_get_default_gen`, `_get_cls_by_field`), the lazy cache
   `Message._betterproto`, `Message.__post_init__`, `Message.__setattr__` (as the dataclass `__init__` runs it),
-  `Message._type_hint`, `_cls_for`, `_get_field_default_gen` and `_get_field_default` are translated from the
+  `Message._type_hint`, `_cls_for`, `_get_field_default_gen`, `_get_field_default`, `dataclass_field` and the `*_field`
+  helpers are translated from the
   Python AST of the working tree on every run (harness/extract_srcmeta.py → BpProofs/Gen/SrcMeta.lean, namespace
   `Bp.SrcMeta`) and proved EQUAL to what the model — and the preludes of all the other source ties — use:
 
@@ -273,6 +275,36 @@ theorem src_tables_as_load_assumes (fs : List FieldD) :
             · simp [hmsg, he]
             · simp only [hmsg, he, Bool.false_eq_true, if_false]
               cases f.ty <;> simp [scalarObj]
+
+/-! ### `dataclass_field` and the `*_field` helpers -/
+
+/-- **`dataclass_field` as written**: the dataclass default of a field is `None` when `optional`, `PLACEHOLDER` otherwise —
+    `PyMeta.fieldDefault`, the slot value `fresh` / `construct` give a field that received no argument — and the
+    `FieldMetadata` holds number, proto type, map types, group, wraps and optional as given -/
+theorem src_dataclass_field (f : FieldD) :
+    SrcMeta.dataclass_field f.num f.ty (mapTypes f) f.group f.wraps f.optional
+      = .ok { default := fieldDefault f, metadata := metaOf f }
+    ∧ fieldDefault f = (if f.optional then Val.none else Val.ph) :=
+  ⟨dataclass_field_descr f, rfl⟩
+
+/-- **every `*_field` helper as written is `dataclass_field` at its `TYPE_*` constant**: the 16 scalar helpers pass number,
+    group and optional; `message_field` also `wraps`; `map_field` passes `map_types = (key_type, value_type)` and is never
+    optional -/
+theorem src_field_helpers (n : Nat) (g : Option Nat) (w : Option PType) (o : Bool) (k v : PType) :
+    SrcMeta.enum_field n g o = SrcMeta.dataclass_field n .enum none g none o
+    ∧ SrcMeta.bool_field n g o = SrcMeta.dataclass_field n .bool none g none o
+    ∧ SrcMeta.int32_field n g o = SrcMeta.dataclass_field n .int32 none g none o
+    ∧ SrcMeta.sint64_field n g o = SrcMeta.dataclass_field n .sint64 none g none o
+    ∧ SrcMeta.double_field n g o = SrcMeta.dataclass_field n .double none g none o
+    ∧ SrcMeta.sfixed32_field n g o = SrcMeta.dataclass_field n .sfixed32 none g none o
+    ∧ SrcMeta.string_field n g o = SrcMeta.dataclass_field n .string none g none o
+    ∧ SrcMeta.bytes_field n g o = SrcMeta.dataclass_field n .bytes none g none o
+    ∧ SrcMeta.message_field n g w o = SrcMeta.dataclass_field n .message none g w o
+    ∧ SrcMeta.map_field n k v g = SrcMeta.dataclass_field n .map (some (k, v)) g none false
+    ∧ (∀ m, SrcMeta.message_field n g w o = .ok m → m.default = (if o then Val.none else Val.ph) ∧ m.metadata.wraps = w) :=
+  ⟨rfl, rfl, rfl, rfl, rfl, rfl, rfl, rfl, rfl, rfl, fun m h => by
+    have : SrcMeta.message_field n g w o = .ok { default := if o then Val.none else Val.ph, metadata := ⟨n, .message, none, g, w, o⟩ } := rfl
+    rw [this] at h; injection h with h; subst h; exact ⟨rfl, rfl⟩⟩
 
 /-! ### non-vacuity -/
 
